@@ -53,44 +53,45 @@ Example demo_rejections :
       [10; 11; 16] = [Raise ValueError; Raise ValueError; Raise IndexError].
 Proof. vm_compute. reflexivity. Qed.
 
-(* ------------------------------------------------------------------ refutations: the current code at its defect sites *)
-Definition changed (pre : list op) (o : op) : bool :=
-  let h := run current_cfg pre empty_heap in
-  let '(h', r) := step current_cfg h o in
+(* ------------------------------------------------------------------ refutations: `_before_fix` about original_cfg (the code before
+   c5c2382 / dff454e), `C06_graphnew_refuted` about current_cfg (still open) *)
+Definition changed (c : cfg) (pre : list op) (o : op) : bool :=
+  let h := run c pre empty_heap in
+  let '(h', r) := step c h o in
   negb (is_ok r) && negb (list_eqb Z.eqb (obs h') (obs h)).
 
 Definition w_pre := [NewValue 0 (Some (NUser 0)); NewValue 1 (Some (NUser 1)); GraphNew 0 [] [] [] []; GraphNew 1 [1] [] [] []].
 Definition w_gpre := [GraphNew 0 [] [] [] []; GraphNew 1 [] [] [] []; NewNode 0 [] (OFresh []) None None;
                       NewNode 1 [] (OFresh []) (Some 1) None].
 
-Theorem C06_ioextend_refuted : changed w_pre (IOExtend KIn 0 [0; 1]) = true.
+Theorem C06_ioextend_refuted_before_fix : changed original_cfg w_pre (IOExtend KIn 0 [0; 1]) = true.
 Proof. vm_compute. reflexivity. Qed.
-Print Assumptions C06_ioextend_refuted.
-Theorem C06_ioinsert_refuted : changed w_pre (IOInsert KIn 0 0 1) = true.
+Print Assumptions C06_ioextend_refuted_before_fix.
+Theorem C06_ioinsert_refuted_before_fix : changed original_cfg w_pre (IOInsert KIn 0 0 1) = true.
 Proof. vm_compute. reflexivity. Qed.
-Print Assumptions C06_ioinsert_refuted.
-Theorem C06_iosetitem_refuted : changed (w_pre ++ [IOAppend KIn 0 0]) (IOSetItem KIn 0 0 1) = true.
+Print Assumptions C06_ioinsert_refuted_before_fix.
+Theorem C06_iosetitem_refuted_before_fix : changed original_cfg (w_pre ++ [IOAppend KIn 0 0]) (IOSetItem KIn 0 0 1) = true.
 Proof. vm_compute. reflexivity. Qed.
-Print Assumptions C06_iosetitem_refuted.
+Print Assumptions C06_iosetitem_refuted_before_fix.
 (* initializers["u1"] = <output of a node, unnamed>: renamed, then rejected *)
-Theorem C06_initsetitem_refuted :
-  changed [GraphNew 0 [] [] [] []; NewNode 0 [] (OFresh [0]) None None] (InitSetItem 0 (NUser 1) 0) = true.
+Theorem C06_initsetitem_refuted_before_fix :
+  changed original_cfg [GraphNew 0 [] [] [] []; NewNode 0 [] (OFresh [0]) None None] (InitSetItem 0 (NUser 1) 0) = true.
 Proof. vm_compute. reflexivity. Qed.
-Print Assumptions C06_initsetitem_refuted.
-Theorem C06_nameempty_refuted :
-  changed [NewValue 0 (Some (NUser 0)); GraphNew 0 [] [] [] []; InitAdd 0 0] (VSetName 0 (Some NEmpty)) = true.
+Print Assumptions C06_initsetitem_refuted_before_fix.
+Theorem C06_nameempty_refuted_before_fix :
+  changed original_cfg [NewValue 0 (Some (NUser 0)); GraphNew 0 [] [] [] []; InitAdd 0 0] (VSetName 0 (Some NEmpty)) = true.
 Proof. vm_compute. reflexivity. Qed.
-Print Assumptions C06_nameempty_refuted.
-Theorem C06_gextend_refuted : changed w_gpre (GExtend 0 [0; 1]) = true.
+Print Assumptions C06_nameempty_refuted_before_fix.
+Theorem C06_gextend_refuted_before_fix : changed original_cfg w_gpre (GExtend 0 [0; 1]) = true.
 Proof. vm_compute. reflexivity. Qed.
-Print Assumptions C06_gextend_refuted.
-Theorem C06_ginsert_refuted : changed w_gpre (GInsertAfter 0 1 [0]) = true.
+Print Assumptions C06_gextend_refuted_before_fix.
+Theorem C06_ginsert_refuted_before_fix : changed original_cfg w_gpre (GInsertAfter 0 1 [0]) = true.
 Proof. vm_compute. reflexivity. Qed.
-Print Assumptions C06_ginsert_refuted.
-Theorem C06_rau_outputs_refuted :
-  changed (w_pre ++ [IOAppend KOut 0 0]) (VReplaceAllUses 0 1 true) = true.
+Print Assumptions C06_ginsert_refuted_before_fix.
+Theorem C06_rau_outputs_refuted_before_fix :
+  changed original_cfg (w_pre ++ [IOAppend KOut 0 0]) (VReplaceAllUses 0 1 true) = true.
 Proof. vm_compute. reflexivity. Qed.
-Print Assumptions C06_rau_outputs_refuted.
-Theorem C06_graphnew_refuted : changed w_pre (GraphNew 2 [0; 1] [] [] []) = true.
+Print Assumptions C06_rau_outputs_refuted_before_fix.
+Theorem C06_graphnew_refuted : changed current_cfg w_pre (GraphNew 2 [0; 1] [] [] []) = true.
 Proof. vm_compute. reflexivity. Qed.
 Print Assumptions C06_graphnew_refuted.
